@@ -11,7 +11,7 @@ META = {
              'brackets, plus inserts at the very start/end of nodes. An edit is in scope iff ast.parse(new) has the same structure as before. The target node is the innermost '
              'node whose reference extent (own ast positions, or the span of its children for position-less nodes) strictly contains the spot, found by brute force over '
              'ast positions. Oracle after node.put_src(text, ..., "offset"): root.src == the splice and dump(include_attributes) == dump(ast.parse(new)). '
-             'A cell is (target node class, edit kind, single/multi-line, multibyte-before-spot).'),
+             'A cell is (target node class, edit kind, single/multi-line, multibyte-before-spot). Coordinates are sometimes passed in the documented alias spellings (negative / \'end\' / clipped).'),
     'budget': {'quick': 40, 'thorough': 600},
     'floors': {'quick': {'offset_edits_checked': 20000, 'programs': 150}, 'thorough': {'offset_edits_checked': 400000, 'programs': 3000}},
     'exhaustive': {'quick': False, 'thorough': False},
